@@ -4,6 +4,13 @@ from .objs import mixture, builtin_mixtures
 
 
 def check(case):
+    try:
+        return _check(case)
+    except ValueError as e:
+        return ["a conversion raised for an admissible composition: %s (case %r)" % (e, case)]
+
+
+def _check(case):
     from pyvaporation.mixtures import Composition
     fails = []
     if 'builtin' in case: mix = dict(builtin_mixtures())[case['builtin']]
@@ -30,7 +37,7 @@ def check(case):
         lo, hi = sorted((p, p2))
         if lo < hi and not getattr(Composition(p=lo, type=t), a)(mix).p < getattr(Composition(p=hi, type=t), a)(mix).p:
             if hi - lo > 1e-9: fails.append("%s not strictly increasing on %r < %r" % (a, lo, hi))
-        if 0 < p < 1:
+        if 1e-6 < p < 1 - 1e-6:           # the ratio is ill-conditioned within rounding of the end points
             ratio = (y.p / (1 - y.p)) / (p / (1 - p))
             want = M2 / M1 if a == 'to_molar' else M1 / M2
             if abs(ratio - want) > 1e-7 * want: fails.append("%s ratio law: %r vs %r" % (a, ratio, want))
